@@ -331,7 +331,8 @@ Definition own_step (pinned : bool) (st : state) (c : nat) (cm : cmd) (e : event
     | KSlot s ro lb rep =>
       match ph with
       | PWaited lb' =>
-        if Nat.eqb lb lb' && match c_repl cm with None => true | Some _ => false end then
+        if Nat.eqb lb lb' && match c_repl cm with None => true | Some _ => false end &&
+           match rep with Some old => match nget (lbs st) old with Some _ => true | None => false end | None => true end then
           let x := svc_slots st s in
           Some (put (upd_svcs st (nset (svcs st) s (if ro then (fst x, Some lb) else (Some lb, snd x))))
                     c (set_repl (stepped cm now (PSlot lb rep)) (Some rep)))
@@ -535,7 +536,7 @@ Definition step_gen (pinned : bool) (st0 : state) (e : event) : option state :=
     | ACmd c =>
       match nget (cmds st) c with
       | Some cm => own_step pinned st c cm e
-      | None => Some st
+      | None => None                                      (* a command acts only after its KIssue *)
       end
     | _ =>
       match k with
